@@ -3,8 +3,8 @@
  *  - on return true every field pointer m_f0..m_f5 is NULL or points into m_buf and a string terminator follows
  *    inside m_buf (a NUL-terminated suffix), the fields are in increasing order,
  *  - m_lineno advanced by exactly the number of getline() calls (modulo 2^32: see unit.json, overflow not checked),
- *  - it returns false only after the stream failed.
- * The *_terminates instance adds a decreases clause (lines left in the stream) to the comment-skipping loop. */
+ *  - it returns false only after getline() reported failure (end of file, overlong line, bad stream),
+ *  - the comment-skipping loop terminates: its variant is the number of lines left in the stream. */
 #include "verif_c.h"
 #include "constants.h"
 #ifdef CAP            /* quick tier only: a shorter line buffer (must exceed 80, the fixed MPS line width) */
@@ -151,7 +151,7 @@ __CPROVER_ensures((__CPROVER_return_value && off[g_i] >= 0) ==> (*c0 != '\0' && 
 /* line counter == number of getline() calls; false only after a stream failure */
 /* (a failed read returns before the line counter is advanced) */
 __CPROVER_ensures(*lineno_out == g_lineno0 + g_calls - (__CPROVER_return_value ? 0 : 1) && g_consumed + g_remaining == g_total)
-__CPROVER_ensures(!__CPROVER_return_value ==> (!g_good && !g_eof))
+__CPROVER_ensures(!__CPROVER_return_value ==> g_fail)
 ;
 
 void h_readline(void)
